@@ -745,7 +745,8 @@ class TypeBlocks(ContainerOperand):
                             zip(columns_ic.iloc_dst, columns_ic.iloc_src)) #type: ignore [arg-type]
 
                     for idx in range(columns_ic.size):
-                        if idx in columns_dst_to_src:
+                        # if no index labels are in common, iloc_src and iloc_dst are None: all values are fill values
+                        if idx in columns_dst_to_src and index_ic.has_common:
                             block_idx, block_col = self._index[columns_dst_to_src[idx]]
                             b = self._blocks[block_idx]
 
